@@ -1334,6 +1334,11 @@ def canon_place_deep(F, body, pl, depth=0):
     if depth > 6 or body.kind not in NESTED_KINDS or cp["l"] != 1 or not cp["p"]:
         return body, cp
     e = cp["p"][0]
+    skip = 1
+    if e == "*" and len(cp["p"]) > 1:
+        # `FnMut` / `Fn` closures receive `&mut self` / `&self`
+        e = cp["p"][1]
+        skip = 2
     if not (isinstance(e, dict) and "f" in e and e.get("o", "").startswith("{upvar}")):
         return body, cp
     parent, ups = closure_upvar_operands(F, body)
@@ -1343,7 +1348,7 @@ def canon_place_deep(F, body, pl, depth=0):
     if src is None:
         return body, cp
     # the capture is either the value or a reference to it
-    rest = [x for x in cp["p"][1:]]
+    rest = [x for x in cp["p"][skip:]]
     pb, pp = canon_place_deep(F, parent, src, depth + 1)
     sd = pb.single_def(pp["l"]) if not pp["p"] else None
     if sd and sd[1] == "assign" and sd[2]["rv"]["k"] == "ref":
@@ -1456,3 +1461,28 @@ def natural_loop(body, h):
         loop.add(x)
         work.extend(body.pred[x])
     return loop
+
+
+def for_loop_handles_every_element(body, s_next, t_next, handler_blocks):
+    """`for x in it { .. }` (desugared: loop { match it.next() { None => break, Some(x) => .. } }): the loop is left only
+    through the None edge of the switch on next()'s result, and every way from the Some edge back to `next` passes one
+    of `handler_blocks` (a push, a call of the storing closure, an inner loop): no element is skipped."""
+    cyc = natural_loop(body, s_next.bb)
+    nb = t_next["t"]
+    sw = body.blocks[nb]["term"]
+    if sw["k"] != "switch" or nb not in cyc:
+        return False
+    exits = [(x, y) for x in cyc for y in body.succ[x] if y not in cyc and body.blocks[y]["term"]["k"] != "unreachable"]
+    if not exits or not all(x == nb for x, y in exits):
+        return False
+    inside = [y for y in body.succ[nb] if y in cyc]
+    seen, work = set(), list(inside)
+    while work:
+        x = work.pop()
+        if x in seen or x in handler_blocks or x not in cyc:
+            continue
+        if x == s_next.bb:
+            return False
+        seen.add(x)
+        work.extend(body.succ[x])
+    return True
